@@ -36,8 +36,10 @@ fn any_state_q<S: Default>(ins: impl Fn(&mut Behaviour<S>, PeerId), queued: Opti
     b
 }
 
+/// list state with an EMPTY close queue (operations that never touch the queue; the frame
+/// condition "queue unchanged" is then checked on the empty queue only — stated bound)
 fn any_allowed() -> Behaviour<AllowedPeers> {
-    any_allowed_q(None)
+    any_allowed_q(Some(false))
 }
 
 fn any_allowed_q(queued: Option<bool>) -> Behaviour<AllowedPeers> {
@@ -50,7 +52,7 @@ fn any_allowed_q(queued: Option<bool>) -> Behaviour<AllowedPeers> {
 }
 
 fn any_blocked() -> Behaviour<BlockedPeers> {
-    any_blocked_q(None)
+    any_blocked_q(Some(false))
 }
 
 fn any_blocked_q(queued: Option<bool>) -> Behaviour<BlockedPeers> {
@@ -226,8 +228,18 @@ fn contract_callbacks_enforce_allowed() {
 /// poll turns each queued peer into exactly one CloseConnection{All} command, FIFO
 #[kani::proof]
 #[kani::unwind(8)]
-fn contract_poll_emits_close() {
-    let mut b = any_blocked();
+fn contract_poll_emits_close_queue_empty() {
+    poll_emits_close(false);
+}
+
+#[kani::proof]
+#[kani::unwind(8)]
+fn contract_poll_emits_close_queue_one() {
+    poll_emits_close(true);
+}
+
+fn poll_emits_close(queued: bool) {
+    let mut b = any_blocked_q(Some(queued));
     let q0 = queue_snapshot(&b);
     let w = futures_noop_waker();
     let mut cx = Context::from_waker(&w);
@@ -243,6 +255,7 @@ fn contract_poll_emits_close() {
             assert!(b.waker.is_some());
         }
     }
+    std::mem::forget(b);
 }
 
 fn futures_noop_waker() -> Waker {
